@@ -60,10 +60,11 @@ type node struct {
 	parent    *node
 
 	// run state
-	thread   int // goroutine that executes the stage (assigned when it is launched), -1 before
-	executed bool
-	ncomp    int // Complete() calls (completeStage calls) seen for the stage
-	gate     chan struct{}
+	thread    int  // goroutine that executes the stage (assigned when it is launched), -1 before
+	trackable bool // the stage's operator also implements operator.TrackableOperator (Stats())
+	executed  bool
+	ncomp     int // Complete() calls (completeStage calls) seen for the stage
+	gate      chan struct{}
 }
 
 func (n *node) token() string {
@@ -122,6 +123,10 @@ func tree(s string) *node {
 		n.queued = s[pos] == 'Q'
 		n.stopRace = s[pos] == 'Z'
 		pos += 2
+		if pos < len(s) && s[pos] == '*' { // the stage's operator is trackable (has Stats())
+			n.trackable = true
+			pos++
+		}
 		if pos < len(s) && s[pos] == '(' {
 			pos++
 			for {
@@ -174,12 +179,12 @@ func genTree(r *rand.Rand, kind genKind, maxNodes int) *node {
 		budget := maxNodes - 1
 		shards := 1 + r.Intn(4)
 		for s := 0; s < shards && budget > 0; s++ {
-			sc := &node{async: true, out: randOutcome(r, genAny)}
+			sc := &node{async: true, out: randOutcome(r, genAny), trackable: r.Intn(2) == 0}
 			budget--
 			root.children = append(root.children, sc)
 			groups := r.Intn(3)
 			for g := 0; g < groups && budget > 0; g++ {
-				gr := &node{async: true, out: randOutcome(r, genAny)}
+				gr := &node{async: true, out: randOutcome(r, genAny), trackable: r.Intn(2) == 0}
 				budget--
 				sc.children = append(sc.children, gr)
 				if r.Intn(2) == 0 && budget > 0 {
@@ -196,7 +201,7 @@ func genTree(r *rand.Rand, kind genKind, maxNodes int) *node {
 	var build func(depth int, onMain bool) *node
 	build = func(depth int, onMain bool) *node {
 		budget--
-		n := &node{async: r.Intn(100) < asyncP, out: randOutcome(r, kind)}
+		n := &node{async: r.Intn(100) < asyncP, out: randOutcome(r, kind), trackable: r.Intn(2) == 0}
 		if depth == 0 && r.Intn(3) > 0 {
 			n.async = false // lindb's root stages are synchronous
 		}
@@ -245,6 +250,11 @@ type gateOp struct {
 	done chan struct{} // closed when the case is over: nothing parks any more
 }
 
+// gateOpT is gateOp's trackable twin: planNode.ExecuteWithStats attaches Stats() of such operators.
+type gateOpT struct{ gateOp }
+
+func (o *gateOpT) Stats() interface{} { return map[string]int{"stage": o.n.id} }
+
 var errScripted = errors.New("scripted stage failure")
 
 func (o *gateOp) Identifier() string { return "verif-op-" + strconv.Itoa(o.n.id) }
@@ -282,6 +292,7 @@ type obs struct {
 	timeout     string
 	panicked    []*node
 	rejected    []*node // pooled stages whose pool rejected the task
+	silent      *node   // a pooled stage whose task went silent without completing the stage
 	vanished    []*node // 'Q' stages whose accepted task never reached the stage's execution
 	threadPanic map[int]bool
 }
@@ -437,6 +448,9 @@ func (r *runner) mkStage(n *node) stage.Stage {
 			if n.out == 'l' {
 				panic(fmt.Sprintf("scripted panic in Plan() of stage %d", n.id))
 			}
+			if n.trackable {
+				return stage.NewPlanNode(&gateOpT{gateOp{n: n, ev: r.ev, done: r.done}})
+			}
 			return stage.NewPlanNode(&gateOp{n: n, ev: r.ev, done: r.done})
 		},
 		NextFn: func() []stage.Stage {
@@ -546,6 +560,15 @@ func (r *runner) settleP(running int, patience time.Duration) (stalled bool) {
 				return true
 			}
 			r.o.timeout = fmt.Sprintf("no event for %v while goroutine %d was running (pending arrivals %d)", evTimeout, running, r.pendArr)
+			if !runningDone && running > 0 {
+				// a pooled task ends with completeStage of its own stage (normally, through errHandle, or
+				// through the pool's panic handler); this one went silent without it
+				for _, n := range r.all {
+					if n.async && n.thread == running && n.executed && n.ncomp == 0 {
+						r.o.silent = n
+					}
+				}
+			}
 			if os.Getenv("LVH_DUMP") != "" {
 				_ = pprof.Lookup("goroutine").WriteTo(os.Stderr, 2)
 			}
@@ -903,6 +926,19 @@ func (r *runner) completedWithErr(n *node) bool {
 	return withErr
 }
 
+func trackables(root *node) string {
+	var ids []string
+	preorder(root, func(n *node) {
+		if n.trackable {
+			ids = append(ids, strconv.Itoa(n.id))
+		}
+	})
+	if len(ids) == 0 {
+		return ""
+	}
+	return " (operators with Stats(): #" + strings.Join(ids, ",#") + ")"
+}
+
 func describe(root *node, used []int) string {
 	ss := make([]string, len(used))
 	for i, k := range used {
@@ -912,7 +948,7 @@ func describe(root *node, used []int) string {
 			ss[i] = strconv.Itoa(k)
 		}
 	}
-	return fmt.Sprintf("tree [%s] release order [%s]", tokens(root), strings.Join(ss, " "))
+	return fmt.Sprintf("tree [%s]%s release order [%s]", tokens(root), trackables(root), strings.Join(ss, " "))
 }
 
 // oracle evaluates C19 on what the real pipeline did. witness != "": the case is the fixed witness
@@ -920,6 +956,20 @@ func describe(root *node, used []int) string {
 func (r *runner) oracle(c *core.Ctx, root *node, used []int, witness string) {
 	o := &r.o
 	what := describe(root, used)
+	if o.timeout != "" && o.silent != nil {
+		how := "executed"
+		switch o.silent.out {
+		case 'p':
+			how = "panicked in its execution"
+		case 'n':
+			how = "panicked in NextStages() (in its completion handler, on the pool worker)"
+		case 'e':
+			how = "failed"
+		}
+		c.Fail("no-callback-pooled-stage-never-completed", fmt.Sprintf("%s: pooled stage #%d %s and its task ended without the stage being completed (neither by the completion handler, nor by errHandle, nor by the pool's panic handler): pending stays > 0, completion is never signalled",
+			what, o.silent.id, how))
+		return
+	}
 	if o.timeout != "" {
 		c.Fail("harness-timeout", what+": "+o.timeout)
 		return
@@ -1021,6 +1071,11 @@ var fixed = []fixedCase{
 	{"So(Ao,Sp)", []int{0, 0, 1}, ""},
 	// lindb's leaf shape, every stage succeeds
 	{"So(Ao(Ao(Ao)),Ao(Ao))", []int{0, 2, 1, 3, 4, 5}, ""},
+	// operators that also implement Stats() (planNode.ExecuteWithStats' trackable branch): a failing one
+	// and a panicking one must still fail their stage
+	{"So(Ae*,Ao*)", []int{0, 1, 2}, ""},
+	{"So*(Se*)", []int{0, 0}, ""},
+	{"So(Ap*,Ao)", []int{0, 2, 1}, ""},
 	// Plan() of a pooled non-root stage panics inline, before it is submitted; a sibling follows
 	{"So(Al,Ao)", []int{0, 1}, ""},
 	// … under a pooled parent
